@@ -118,7 +118,7 @@ claim('C14',
       'Decides data-flow purity, not numerical values. GF calculator modelled as an environment (function of the rates; fresh arrays '
       'per SetRates; Diffusivity()/biascorrection() return stored arrays as the real one does). Raw-bytes hashing modelled as equal '
       'iff all numbers equal (inputs in [1/16, 8], so +0.0 / -0.0 cannot meet). Calculators enumerated (square, SC quick; + rect-2-site, square Nthermo=2 thorough); <=4 calls. '
-      'Reload histories are in C13 (seed C14e is decided there). Two defects found and fixed (L0vv aliasing; stale vector stars after range regeneration).',
+      'Reload histories are in C13 (seed C14e is decided there). GFcalculator histories (discarded result; coarser mesh after use) are concrete runs of the real Green-function calculator, stated as such. Four defects found and fixed (L0vv aliasing; stale vector stars and stale tags after range regeneration; GFcalculator did not install the calculator it built).',
       'DESIGN.md 3/C14, 2.3')
 
 claim('C32',
@@ -246,7 +246,8 @@ claim('C13',
       'the Green-function calculator compared attribute by attribute, and so are the reloaded VacancyMediated and GFCrystalcalc '
       'objects (every attribute both have: nested lists, arrays, star sets). Input-buffer history: after a call the caller edits the '
       'array it passed in place (symbolic amount), saves and reloads; the reloaded calculator must answer the original and the edited '
-      'input correctly (one defect found and fixed: cache keys aliased the caller\'s arrays).',
+      'input correctly; the reloaded object has every attribute of the original (two defects found and fixed: cache keys aliased the '
+      'caller\'s arrays; threshold not restored).',
       'HDF5 modelled by a stub (replays use real h5py, core driver); YAML half of the property NOT covered; calculators enumerated; '
       'vacancy/solute site energies fixed to zero in the Lij round trip.',
       'DESIGN.md 3/C13, 2.3')
